@@ -7,6 +7,8 @@
 (*   "fromimport"  client:  from lib import <name>                           *)
 (*   "modattr"     client:  import lib       ... lib.<name>                  *)
 (*   "alias"       client:  import lib as l  ... l.<name>                    *)
+(*   "fromalias"   client:  from lib import <name> as c_<name>               *)
+(*   "star"        client:  from lib import *   ... <name>                   *)
 (* For the client forms the preserve set is what the tool itself derives     *)
 (* from the client file (format_files(.., preserved_filenames=[client]) /    *)
 (* `pyrefact lib.py --preserve client.py`).                                  *)
